@@ -223,6 +223,7 @@ class Fn:
         self.params = []       # (lean name, ctype)
         self.ret = None
         self.uses_mem = False
+        self.uses_pd = False
         self.writes = False
         self.has_this = False
         self.body = None
@@ -337,7 +338,7 @@ class Translator:
         try:
             f0 = FnTr(self, defnode).run()
             # second pass with the effect flags known from the first (return statements before the first write need them)
-            f = FnTr(self, defnode, preset=(f0.uses_mem, f0.writes)).run()
+            f = FnTr(self, defnode, preset=(f0.uses_mem, f0.writes, f0.uses_pd)).run()
         except Untranslatable as e:
             self.fns[key] = e
             self.failed[self.tu.qualname(defnode) + " " + defnode.get("type", {}).get("qualType", "")] = str(e)
@@ -409,6 +410,8 @@ class Translator:
             ps = []
             if f.uses_mem:
                 ps.append("(m : Bytes)")
+            if f.uses_pd:
+                ps.append("(pd_ pdsize_ : Nat)")
             for nm, t in f.params:
                 ps.append("(%s : %s)" % (nm, "Bool" if t[0] == "b" else "Nat"))
             rt = {"b": "Bool", "v": "Unit"}.get(f.ret[0], "Nat")
@@ -447,7 +450,7 @@ class FnTr:
         self.node = node
         self.fn = Fn()
         if preset:
-            self.fn.uses_mem, self.fn.writes = preset
+            self.fn.uses_mem, self.fn.writes, self.fn.uses_pd = preset
         self.cnt = 0
         self.break_k = []
         self.locals = {}    # decl id -> lean name
@@ -927,6 +930,10 @@ class FnTr:
             sub = n["inner"][0]
             if ck == "LValueToRValue":
                 return self.load(self.lv(sub, B), B) if not self.is_const_ref(sub) else self.const_ref(sub, B)
+            if ck == "NullToPointer":
+                return "0"
+            if ck in ("UncheckedDerivedToBase", "DerivedToBase"):
+                return self.ex(sub, B)
             if ck in ("NoOp", "BitCast", "ConstructorConversion", "UserDefinedConversion"):
                 if ck in ("ConstructorConversion", "UserDefinedConversion"):
                     raise Untranslatable(ck)
@@ -940,8 +947,6 @@ class FnTr:
                 return l[1]
             if ck == "FunctionToPointerDecay":
                 raise Untranslatable("function pointer")
-            if ck == "NullToPointer":
-                raise Untranslatable("null pointer")
             raise Untranslatable("cast kind " + str(ck))
         if k == "DeclRefExpr":
             return self.const_ref(n, B)
@@ -962,11 +967,36 @@ class FnTr:
             t = self.fresh()
             B.append("let %s ← (if %s then (do %s) else (do %s))" % (t, cv, "; ".join(Ba + ["pure " + av]), "; ".join(Bb + ["pure " + bv])))
             return t
+        if k == "CXXMemberCallExpr":
+            intr = self.payload_intrinsic(n)
+            if intr:
+                self.fn.uses_pd = True
+                return intr
         if k in ("CallExpr", "CXXMemberCallExpr"):
             return self.call(n, B, want_value=True)
         if k == "CXXOperatorCallExpr":
             raise Untranslatable("overloaded operator")
         raise Untranslatable("expression " + str(k))
+
+    def payload_intrinsic(self, n):
+        """`payloadData.data()` / `payloadData.size()` on the enclosing payload object: the address and the size of the bytes the
+        object owns (parameters `pd_`, `pdsize_` of the translated function)"""
+        me = n["inner"][0]
+        while me.get("kind") in ("ParenExpr", "ImplicitCastExpr"):
+            me = me["inner"][0]
+        if me.get("kind") != "MemberExpr" or me.get("name") not in ("data", "size") or len(n["inner"]) != 1:
+            return None
+        b = me["inner"][0]
+        while b.get("kind") in ("ParenExpr", "ImplicitCastExpr"):
+            b = b["inner"][0]
+        if b.get("kind") != "MemberExpr" or b.get("name") != "payloadData":
+            return None
+        t = b["inner"][0]
+        while t.get("kind") in ("ParenExpr", "ImplicitCastExpr"):
+            t = t["inner"][0]
+        if t.get("kind") != "CXXThisExpr":
+            return None
+        return "pd_" if me["name"] == "data" else "pdsize_"
 
     def is_const_ref(self, sub):
         s = sub
@@ -1228,6 +1258,12 @@ class FnTr:
         if f.uses_mem:
             self.fn.uses_mem = True
             pl.append("m")
+        if f.uses_pd:
+            # only on the same object
+            if n["kind"] != "CXXMemberCallExpr" or self.strip_casts(me["inner"][0]).get("kind") != "CXXThisExpr":
+                raise Untranslatable("payload-owning callee on another object")
+            self.fn.uses_pd = True
+            pl += ["pd_", "pdsize_"]
         if f.has_this:
             if this_addr is None:
                 raise Untranslatable("non-static method without object")
